@@ -2120,6 +2120,7 @@ class PyCdlib:
                                                 self.udf_file_set.root_dir_icb.log_block_num,
                                                 None)
 
+        zero_length_fe_to_inode = {}  # type: Dict[int, inode.Inode]
         udf_file_entries = collections.deque([self.udf_root])
         while udf_file_entries:
             udf_file_entry = udf_file_entries.popleft()
@@ -2184,12 +2185,19 @@ class PyCdlib:
                         else:
                             if abs_file_data_extent == 0:
                                 # See the comment about zero-length entries
-                                # in _walk_directories().
-                                ino = inode.Inode()
-                                ino.parse(abs_file_data_extent,
-                                          next_entry.get_data_length(),
-                                          self._cdfp, self.logical_block_size)
-                                self.inodes.append(ino)
+                                # in _walk_directories().  In UDF, names that
+                                # share a File Entry are the same file.
+                                fe_loc = next_entry.extent_location()
+                                if fe_loc in zero_length_fe_to_inode:
+                                    ino = zero_length_fe_to_inode[fe_loc]
+                                else:
+                                    ino = inode.Inode()
+                                    ino.parse(abs_file_data_extent,
+                                              next_entry.get_data_length(),
+                                              self._cdfp,
+                                              self.logical_block_size)
+                                    zero_length_fe_to_inode[fe_loc] = ino
+                                    self.inodes.append(ino)
                             elif abs_file_data_extent in extent_to_inode:
                                 ino = extent_to_inode[abs_file_data_extent]
                                 if all(isinstance(rec, eltorito.EltoritoEntry) for rec, pvd_unused in ino.linked_records):
